@@ -948,19 +948,42 @@ Proof.
   - apply (strictly_rev (fun a b => label_ltb b a)) in H. exact H.
 Qed.
 
+(* what the invariant needs from each GENERATED effect: whatever the cache was (valid), the cache left behind is
+   valid for the labels left behind.  t is the truth for the labels the method leaves (is_monotonic, setitem,
+   values setter, sort, take: the new labels) or for the source's labels (getitem: the new labels are a
+   sub-run or the reversal of a monotonic run, which is monotonic again) *)
+Definition valid (c : option bool) (t : bool) : Prop := c = None \/ c = Some t.
+
+Lemma eff_is_monotonic c t : valid c t -> valid (axis_cache.g_cache_is_monotonic c t false) t.
+Proof. unfold axis_cache.g_cache_is_monotonic, axis_cache.opt_is_none. intros [-> | ->]; [right | right]; reflexivity. Qed.
+Lemma eff_setitem (c : option bool) (t' : bool) : valid (axis_cache.g_cache_setitem c t' false) t'.
+Proof. unfold axis_cache.g_cache_setitem. left. reflexivity. Qed.
+Lemma eff_values_setter c t' : valid (axis_cache.g_cache_values_setter c t' false) t'.
+Proof. unfold axis_cache.g_cache_values_setter. left. reflexivity. Qed.
+Lemma eff_sort c t' : valid (axis_cache.g_cache_sort c t' false) t'.
+Proof. unfold axis_cache.g_cache_sort. left. reflexivity. Qed.
+Lemma eff_take (c : option bool) (t t' : bool) : valid (axis_cache.g_cache_take c t false) t'.
+Proof. unfold axis_cache.g_cache_take. left. reflexivity. Qed.
+Lemma eff_copy c t : valid c t -> valid (axis_cache.g_cache_copy c t false) t.
+Proof. unfold axis_cache.g_cache_copy. exact (fun H => H). Qed.
+(* a slice inherits the cache only when it says "monotonic", and then the slice is monotonic too *)
+Lemma eff_getitem c t t' : valid c t -> (t = true -> t' = true) -> valid (axis_cache.g_cache_getitem c t true) t'.
+Proof.
+  unfold axis_cache.g_cache_getitem, axis_cache.opt_truthy. intros [-> | ->] Hm; [left; reflexivity|].
+  destruct t; simpl; [right; rewrite (Hm eq_refl); reflexivity | left; reflexivity].
+Qed.
+
 Theorem cstep_cache_ok s o : cache_ok s -> cache_ok (fst (cstep s o)).
 Proof.
-  intros H. destruct o; simpl.
-  - destruct (cm s) as [b|] eqn:E; simpl; [exact H | right; reflexivity].
-  - destruct (py_index _ i); simpl; [left; reflexivity | exact H].
-  - destruct (negb _); simpl; [exact H | left; reflexivity].
-  - left. reflexivity.
-  - unfold cache_ok in *. simpl. destruct (cm s) as [[|]|] eqn:E; try (left; reflexivity).
-    right. destruct H as [H|H]; [discriminate|]. injection H as H. rewrite monotonic_sub; [reflexivity | symmetry; exact H].
-  - unfold cache_ok in *. simpl. destruct (cm s) as [[|]|] eqn:E; try (left; reflexivity).
-    right. destruct H as [H|H]; [discriminate|]. injection H as H. rewrite monotonic_rev; [reflexivity | symmetry; exact H].
-  - destruct (mapM _ idx); simpl; [left; reflexivity | exact H].
-  - exact H.
+  unfold cache_ok. intros H. destruct o; cbn [cstep fst cm cl].
+  - apply eff_is_monotonic. exact H.
+  - destruct (py_index _ i); cbn [fst cm cl]; [apply eff_setitem | exact H].
+  - destruct (negb _); cbn [fst cm cl]; [exact H | apply eff_values_setter].
+  - apply eff_sort.
+  - apply (eff_getitem _ _ _ H). apply monotonic_sub.
+  - apply (eff_getitem _ _ _ H). apply monotonic_rev.
+  - destruct (mapM _ idx); cbn [fst cm cl]; [apply eff_take | exact H].
+  - apply eff_copy. exact H.
 Qed.
 
 (* every state reachable from a freshly constructed Axis, by any history *)
@@ -981,9 +1004,10 @@ Theorem cache_history_independent s o :
   snd (cstep s o) = snd (cstep (fresh s) o) /\
   cl (fst (cstep s o)) = cl (fst (cstep (fresh s) o)) /\ ck (fst (cstep s o)) = ck (fst (cstep (fresh s) o)).
 Proof.
-  intros H. destruct o; simpl; try (repeat split; reflexivity).
-  - destruct H as [H|H]; rewrite H; simpl; repeat split; reflexivity.
-  - destruct (py_index _ i); simpl; repeat split; reflexivity.
-  - destruct (negb _); simpl; repeat split; reflexivity.
-  - destruct (mapM _ idx); simpl; repeat split; reflexivity.
+  intros H. destruct o; cbn [cstep fst snd cm cl ck fresh]; try (repeat split; reflexivity).
+  - (* the answer of is_monotonic() *)
+    unfold axis_cache.g_cache_is_monotonic, axis_cache.opt_is_none. destruct H as [H|H]; rewrite H; simpl; repeat split; reflexivity.
+  - destruct (py_index _ i); repeat split; reflexivity.
+  - destruct (negb _); repeat split; reflexivity.
+  - destruct (mapM _ idx); repeat split; reflexivity.
 Qed.
